@@ -867,6 +867,11 @@ func SubstituteParameters(layout Layout,
 
 	replacer := strings.NewReplacer(parameters...)
 
+	// Work on copies of the step and inspection slices, so that the layout of
+	// the caller is left untouched
+	layout.Steps = append([]Step{}, layout.Steps...)
+	layout.Inspect = append([]Inspection{}, layout.Inspect...)
+
 	for i := range layout.Steps {
 		layout.Steps[i].ExpectedMaterials = substituteParametersInSliceOfSlices(
 			replacer, layout.Steps[i].ExpectedMaterials)
